@@ -541,6 +541,12 @@ fn c07_regions(g: &Arc<Grammar>, d: usize, cfgs: &[Cfg], all_spellings: bool) ->
                         // (an inline toggle comment lengthens the last line of the prefix)
                         let pl = if boundary[i] && own_line { Some(prefix_len) } else { None };
                         o3::c07(&x, pl, c, ctx);
+                        if !block && j == n + 1 {
+                            // the same with lone-CR line ends around the toggle comment
+                            let y = x.replacen(&format!("\n{}\n", o3::TOGGLE_OFF[sp]), &format!("\r{}\r", o3::TOGGLE_OFF[sp]), 1);
+                            ctx.sub_eval();
+                            o3::c07(&y, None, c, ctx);
+                        }
                     }
                 }
                 // two regions: [i, j) closed, then a second one from k to the end of the file
@@ -604,7 +610,9 @@ fn c07_regions(g: &Arc<Grammar>, d: usize, cfgs: &[Cfg], all_spellings: bool) ->
     )
 }
 
-const ASM_LINES: [&str; 15] = [
+const ASM_LINES: [&str; 23] = [
+    "{$IFDEF X} mov   a,b {$ENDIF}", "mov eax, {$ifdef A} [1] {$else} 2 {$endif}", "{$IFDEF X}", "{$R+}  nop", "{pasfmt off} mov  a ,b",
+    "mov  a {pasfmt on}  ,   ebx", "{pasfmt off}  mov   a,b {pasfmt on}  ,  c", "(* PasFmt On *)   mov   esi,    edi",
     "mov eax, 1", "@@l:", "@l: ret", "MOV  EAX ,[EBX+4]", "db 'a', \"b\", 0FFh, 101b", "nop; nop", "// c",
     "{c} nop", "mov al, 'x' // c", "push   eax  ", "lock cmpxchg [ecx], edx", "jmp @@l", "mov eax, offset x",
     "dw 1, 2 ; x", "BEGIN",
